@@ -135,6 +135,85 @@ mutant("C15", "probes-caches-finder-per-class", "skfem/assembly/basis/cell_basis
        note="element finder of the first mesh reused for every basis of the class")
 
 
+# ------------------------------------------------------------------ C12/C13/C18
+TRI = "skfem/mesh/mesh_tri_1.py"
+QUAD = "skfem/mesh/mesh_quad_1.py"
+TET = "skfem/mesh/mesh_tet_1.py"
+HEX = "skfem/mesh/mesh_hex_1.py"
+LINE = "skfem/mesh/mesh_line_1.py"
+MESH = "skfem/mesh/mesh.py"
+mutant("C12", "tri-red-child-template", TRI,
+       "                np.vstack((t[1], t2f[0] + sz, t2f[1] + sz)),\n",
+       "                np.vstack((t[1], t2f[0] + sz, t2f[2] + sz)),\n",
+       note="one child of the red refinement uses the wrong edge midpoint")
+mutant("C12", "tet-subdomain-child-offset", TET,
+       "                new_t[5, c1] = np.arange(n1, dtype=np.int32) + 5 * nt\n",
+       "                new_t[5, c1] = np.arange(n1, dtype=np.int32) + 4 * nt\n",
+       note="wrong child block for one diagonal class in the subdomain map")
+mutant("C12", "tri-facet-map-slot", TRI,
+       "            new_facets[1, t2f[0]] = m.t2f[0, ix1]\n",
+       "            new_facets[1, t2f[0]] = m.t2f[2, ix1]\n",
+       note="old->new facet map takes the wrong local slot of a child")
+mutant("C12", "quad-facet-map-child", QUAD,
+       "            new_facets[1, t2f[3]] = m.t2f[3, ix0]\n",
+       "            new_facets[1, t2f[3]] = m.t2f[3, ix1]\n",
+       note="old->new facet map looks into the wrong child")
+mutant("C12", "hex-child-vertex", HEX,
+       "            np.vstack((t2e[2], t2f[2], t2f[1], t[3],\n                       mid, t2e[7], t2e[8], t2f[5])),\n",
+       "            np.vstack((t2e[2], t2f[2], t2f[1], t[3],\n                       mid, t2e[8], t2e[7], t2f[5])),\n",
+       note="two vertices swapped in one child of the hexahedron split")
+mutant("C12", "generic-subdomain-map-off", MESH,
+       "                        new_t[itr + 1] = new_t[itr] + m.t.shape[1]\n",
+       "                        new_t[itr + 1] = new_t[itr] + m.t.shape[1] - (itr == 2)\n",
+       note="generic child map (tri/quad/hex) off by one for the last block")
+mutant("C13", "tri-closure-single-pass", TRI,
+       "        while np.count_nonzero(facets) - prev_nnz > 0:\n",
+       "        for _ in range(1):\n",
+       note="bisection closure not iterated to a fixed point: hanging nodes "
+            "for marked sets whose closure needs two passes")
+mutant("C13", "line-adaptive-right-half", LINE,
+       "                          np.vstack((mid, t[1, marked]))))\n",
+       "                          np.vstack((mid, t[0, marked]))))\n",
+       note="right half of a bisected segment ends at the wrong vertex")
+mutant("C13", "tet-parent-of-grandchild", TET,
+       "            parent[nt:(nt + nm)] = parent[marked]\n",
+       "            parent[nt:(nt + nm)] = marked\n",
+       note="second-level bisections inherit the slot, not the original "
+            "element: wrong only when the closure bisects a child again")
+mutant("C13", "tri-adaptive-subdomain-blue", TRI,
+       "            new_t[:3, blue2] = np.arange(offset,\n                                         offset + 3 * nblue2,\n",
+       "            new_t[:3, blue2] = np.arange(offset + 1,\n                                         offset + 3 * nblue2 + 1,\n",
+       note="subdomain map of blue-2 refined triangles shifted by one")
+mutant("C18", "restrict-facet-rank-reversed", MESH,
+       "            newf[facets] = np.arange(len(facets), dtype=np.int32)\n",
+       "            newf[facets] = np.arange(len(facets), dtype=np.int32)[::-1]\n",
+       note="old->new facet index map of restrict reversed")
+mutant("C18", "remove-unused-no-remap", MESH,
+       "        p, t, _ = self._reix(self.t)\n        return replace(\n            self,\n            doflocs=p,\n            t=t,\n        )\n",
+       "        p, t, _ = self._reix(self.t)\n        return replace(\n            self,\n            doflocs=p,\n            t=self.t,\n        )\n",
+       note="points compacted but connectivity not renumbered")
+mutant("C18", "to-meshtri-subdomain-offset", QUAD,
+       "                subdomains = {k: np.concatenate((v, v + nt))\n",
+       "                subdomains = {k: np.concatenate((v, v + nt - 1))\n",
+       note="second triangle of each tagged quadrilateral attributed to the neighbour")
+mutant("C18", "scaled-first-factor-only", MESH,
+       "            doflocs=np.array([self.doflocs[itr] * factors[itr]\n",
+       "            doflocs=np.array([self.doflocs[itr] * factors[0]\n",
+       note="anisotropic scaling uses the first factor for every axis")
+mutant("C18", "mirrored-ignores-point", MESH,
+       "        p = p - 2. * np.dot(n, p - p0[:, None]) * n[:, None]\n",
+       "        p = p - 2. * np.dot(n, p) * n[:, None]\n",
+       note="mirror plane always through the origin")
+mutant("C18", "restrict-subdomain-order", MESH,
+       "            newt[elements] = np.arange(len(elements), dtype=np.int32)\n",
+       "            newt[np.sort(elements)] = np.arange(len(elements), dtype=np.int32)[::-1]\n",
+       note="old->new element map of restrict reversed")
+mutant("C18", "restrict-vertex-map-unsorted", MESH,
+       "            np.ascontiguousarray(t[ix]),\n            ixuniq\n",
+       "            np.ascontiguousarray(t[ix]),\n            ixuniq[::-1]\n",
+       note="returned vertex index map reversed")
+
+
 def revert_mutants(out_root, index):
     """Each repaired defect, reverted, is a mutant the check must catch."""
     import subprocess
